@@ -98,7 +98,12 @@ def snapshot(hszinc, g):
 OPS = ['meta_set', 'meta_append', 'meta_extend', 'meta_update', 'col_set', 'col_append', 'col_plain', 'append', 'insert',
        'extend', 'iadd', 'setitem', 'row_mutate',
        # the same key again: overwrite in place / relocate an existing key (the store paths differ inside the maps)
-       'meta_set_same', 'col_set_same', 'meta_relocate_same', 'col_append_same']
+       'meta_set_same', 'col_set_same', 'meta_relocate_same', 'col_append_same',
+       # a row may carry a key that is not (yet) a column: the value is in the grid all the same
+       'append_extra', 'setitem_extra']
+RANDOM_ONLY_OPS = ['insert_extra', 'extend_extra']
+# declares every undeclared row key as a column (carries no value of its own)
+NOVALUE_OPS = ['declare_extras']
 # derived grids: the history continues on a slice / filter result, which must keep covering its content
 DERIVE = ['take_slice', 'take_filter']
 CTOR_OPS = ['ctor_meta', 'ctor_col', 'ctor_coldict']
@@ -148,6 +153,21 @@ def apply_op(hszinc, g, op, k, step):
             if len(g) == 0:
                 g.append({'a': 'seed'})
             g[0]['a'] = v
+        elif op == 'append_extra':
+            g.append({'a': 'plain', 'x%d' % step: v})
+        elif op == 'insert_extra':
+            g.insert(0, {'x%d' % step: v})
+        elif op == 'extend_extra':
+            g.extend([{'a': 2.0, 'x%d' % step: v}])
+        elif op == 'setitem_extra':
+            if len(g) == 0:
+                g.append({'a': 'seed'})
+            g[0] = {'a': 'plain', 'x%d' % step: v}
+        elif op == 'declare_extras':
+            for row in g:
+                for key in row:
+                    if key not in g.column:
+                        g.column[key] = {}
         else:
             raise AssertionError(op)
     except Exception as e:   # noqa
@@ -222,7 +242,9 @@ def judge_history(ctx, hszinc, ver, ctor, hist):
                      'the derived grid (%s) holds 3.0-only values at %r but reports version %s' % (op, sorted(set(where)), g.version))
                 return
             continue
-        if op in ('setitem', 'row_mutate') and len(g) == 0:
+        if op in NOVALUE_OPS:
+            k = 'str'
+        if op in ('setitem', 'row_mutate', 'setitem_extra') and len(g) == 0:
             g.append({'a': 'seed'})       # harness seeding, not part of the judged operation
         before = snapshot(hszinc, g)
         exc = apply_op(hszinc, g, op, k, step)
@@ -524,7 +546,7 @@ def run_shard(spec, ctx):
     if spec['part'] == 'hist':
         ver = spec['version']
         kinds = spec['kinds']
-        steps = [(op, k) for op in OPS for k in kinds] + [(op, 'str') for op in DERIVE]
+        steps = [(op, k) for op in OPS for k in kinds] + [(op, 'str') for op in DERIVE + NOVALUE_OPS]
         ctors = [None] + [(op, k) for op in CTOR_OPS for k in kinds]
         n = 0
         cs, cn = spec.get('cslice', [0, 1])
@@ -542,7 +564,7 @@ def run_shard(spec, ctx):
     else:
         box = attach_invariant(hszinc)
         r = random.Random(ctx.seed * 1000003 + 10)
-        ops = [o for o in OPS if o not in BYPASS] + DERIVE
+        ops = [o for o in OPS if o not in BYPASS] + DERIVE + RANDOM_ONLY_OPS + NOVALUE_OPS
         for i in range(spec['n']):
             ver = r.choice(VERSIONS)
             ctor = None if r.random() < 0.6 else [r.choice(CTOR_OPS), r.choice(K3 + K2)]
